@@ -99,6 +99,10 @@ def gen_forms(rng, nmods, mod):
             j = rng.choice([m for m in range(nmods) if m != mod])
             if rng.random() < 0.3:
                 forms.append(["req", j, "*"])
+            elif rng.random() < 0.3:
+                # ONE require form with several `:readers` entries (from the same or from different modules)
+                others = [m for m in range(nmods) if m != mod]
+                forms.append(["reqm", [[rng.choice(others), rng.sample(NAMES, rng.randint(1, 2))] for _ in range(rng.randint(2, 3))]])
             else:
                 forms.append(["req", j, rng.sample(NAMES, rng.randint(1, 2))])
         elif r < 0.86 and nmods > 1:
@@ -144,6 +148,8 @@ def render_form(f, uid, tagdef):
     if k == "req":
         spec = "*" if f[2] == "*" else "[" + " ".join(f[2]) + "]"
         return f"(require {{MOD{f[1]}}} :readers {spec})"
+    if k == "reqm":
+        return "(require " + " ".join(f"{{MOD{j}}} :readers [" + " ".join(names) + "]" for j, names in f[1]) + ")"
     if k == "nested":
         return f"(eval-when-compile (hy.I.c37probe.nested {uid}))"
     if k == "plain":
@@ -217,8 +223,23 @@ class Model:
                 if missing:
                     f = ["req", f[1], missing[:1] + [n for n in f[2] if n != missing[0]]]
                     op["forms"][fi] = f
+            if k == "reqm":
+                # only names the source module has when the form is reached (a multi-entry require never fails here);
+                # entries left without a name are dropped
+                ents = [[j, [n for n in names if n in self.tables[j]]] for j, names in f[1]]
+                ents = [e for e in ents if e[1]]
+                f = ["reqm", ents] if ents else ["plain", 7]
+                k = f[0]
+                op["forms"][fi] = f
             f_src = render_form(f, uid, tagdef)
-            if k == "def":
+            if k == "reqm":
+                for j, names in f[1]:
+                    for n in names:
+                        self.tables[mod][n] = self.tables[j][n]
+                        R[n] = self.tables[j][n]
+                    self.rt_actions.append(["req", j, names])
+                recs.append(["req", None, f_src])
+            elif k == "def":
                 self.tables[mod][f[1]] = tagdef
                 R[f[1]] = tagdef
                 self.rt_actions.append(["def", f[1], tagdef])
